@@ -1310,7 +1310,11 @@ class Builder(object):
                 index += 1
 
                 if connective == 'at':
-                    period = max(0.0, Convert2Num(tokens[index]))
+                    period = Convert2Num(tokens[index])
+                    if isinstance(period, complex):
+                        msg = "Error building %s. Invalid period %s." % (command, tokens[index])
+                        raise excepting.ParseError(msg, tokens, index)
+                    period = max(0.0, period)
                     index +=1
 
                 elif connective == 'be':
@@ -2909,7 +2913,11 @@ class Builder(object):
                 if connective in ['at']:
                     # parse period direct or indirect
                     try:  #parse direct
-                        period = max(0.0, Convert2Num(tokens[index]))  # period is number
+                        period = Convert2Num(tokens[index])  # period is number
+                        if isinstance(period, complex):
+                            msg = "Error building %s. Invalid period %s." % (command, tokens[index])
+                            raise excepting.ParseError(msg, tokens, index)
+                        period = max(0.0, period)
                         index += 1  # eat token
 
                     except ValueError:  # parse indirect
